@@ -59,6 +59,7 @@ type c12RaceSess struct {
 	began   int // number of acknowledged commits when the transaction began
 	pks     map[string]bool
 	tuples  map[string]bool // unique tuples written or vacated by the open transaction
+	snap    *refTable       // the committed reference when the transaction's PRIMARY-index snapshot was taken (BEGIN for AUTO_INCREMENT tables — loadMaxPK reads it —, else the first statement): the row versions its UPDATE / UPSERT / DELETE read, i.e. the tuples they vacate
 	writes  []c12RaceWrite
 	target  int // statements the session wants to run before COMMIT
 	openUpd int
@@ -504,7 +505,9 @@ func (c *c12Case) raceGen(rs *c12Race, s *c12RaceSess) *dml {
 		}
 		return d
 	case k < 82:
-		if old := c.raceTarget(rs, s); old != nil && rng.Intn(3) != 0 {
+		if old := c.raceTarget(rs, s); old != nil && rng.Intn(3) != 0 && !(sc.autoInc() && s.snap != nil && s.snap.find(c.ref.pkOf(old)) < 0) {
+			// (on an AUTO_INCREMENT table the key must be one the transaction's snapshot holds: a row committed after its
+			// BEGIN lies above ITS high-water mark — an explicit key there followed by a generated one is R9 territory)
 			row := newRow(c.ref.pkOf(old))
 			if rng.Bool() && len(rs.uniq) > 1 {
 				// keep the tuple of one unique index: its entry is reused
@@ -561,6 +564,15 @@ func (s *c12RaceSess) noteRow(c *c12Case, row, old []c15Val) {
 	}
 }
 
+func (s *c12RaceSess) noteVacated(c *c12Case, old []c15Val) {
+	if s.tuples == nil {
+		s.pks, s.tuples = map[string]bool{}, map[string]bool{}
+	}
+	for ixn, ix := range c.sc.Idx {
+		s.tuples[c12Key(ixn, c12Tuple(old, ix.Cols))] = true
+	}
+}
+
 // the transient entries of an open transaction are keyed by the index values alone (finding R1), for
 // NON-unique indexes too: no two writes of one transaction may share the tuple of any secondary index
 func (c *c12Case) raceFixNonUnique(rs *c12Race, s *c12RaceSess, row []c15Val) {
@@ -598,11 +610,30 @@ func (s *c12RaceSess) note(c *c12Case, d *dml) {
 			}
 			if d.K == "insert-ocn" && old != nil {
 				s.pks[sqlRowTok(c.ref.pkOf(row))] = true
-				continue
+				if s.snap == nil || s.snap.find(s.snap.pkOf(row)) >= 0 {
+					continue
+				}
+				// committed meanwhile, but absent from the transaction's snapshot: the engine does NOT skip the row, its unique
+				// tuples are written by this transaction
+				old = nil
 			}
 			s.noteRow(c, row, old)
+			if s.snap != nil && d.K == "upsert" && (!sc.autoInc() || !row[sc.PK[0]].null) {
+				if at := s.snap.find(s.snap.pkOf(row)); at >= 0 {
+					s.noteVacated(c, s.snap.rows[at])
+				}
+			}
 		}
 	case "update", "delete":
+		if s.snap != nil {
+			// the version of the row the transaction READ is the one of its snapshot: that version's tuples are the ones the
+			// engine marks deleted (and keys by the index values alone, R1) — they must not be written again either
+			for _, old := range s.snap.rows {
+				if v, n, e := d.Where.eval(sc, old); e == "" && !n && v {
+					s.noteVacated(c, old)
+				}
+			}
+		}
 		for _, old := range c.ref.rows {
 			if v, n, e := d.Where.eval(sc, old); e != "" || n || !v {
 				continue
@@ -643,6 +674,9 @@ func (c *c12Case) raceBegin(rs *c12Race, si int) {
 		return
 	}
 	*s = c12RaceSess{tx: res.Tx, began: rs.nCommit, target: 1}
+	if c.sc.autoInc() {
+		s.snap = c.ref.clone()
+	}
 	switch k := c.rng.Intn(10); {
 	case k >= 9:
 		s.target = 3
@@ -663,6 +697,9 @@ func (c *c12Case) raceStmt(rs *c12Race, si int) {
 	}
 	for k := range s.pks {
 		pks[k] = true
+	}
+	if s.snap == nil {
+		s.snap = c.ref.clone()
 	}
 	d := c.raceGen(rs, s)
 	s.writes, s.tuples, s.pks = s.writes[:nw], tuples, pks
